@@ -2870,7 +2870,21 @@ impl<'a, R: FileManager> FrontendCtx<'a, R> {
                     };
                     let resolved_addr = self.get_addressed_type(&new_addr, &anchor)?;
                     let rt_name = RuntypeName::Address(resolved_addr.type_address());
-                    return self.extract_addressed_type(&rt_name, type_args, &anchor);
+                    // expanded in place, so a default export that refers to itself through
+                    // `import("./x")` would be expanded forever: same limit as for named generics
+                    if self.instantiation_depth >= 32 {
+                        return self.error(
+                            &anchor,
+                            DiagnosticInfoMessage::AnyhowError(
+                                "Type instantiation is excessively deep and possibly infinite"
+                                    .to_string(),
+                            ),
+                        );
+                    }
+                    self.instantiation_depth += 1;
+                    let res = self.extract_addressed_type(&rt_name, type_args, &anchor);
+                    self.instantiation_depth -= 1;
+                    return res;
                 }
             }
         };
